@@ -94,9 +94,20 @@ def all_generated():
 
 def regen_generated(gens):
     """Translators: regenerate the Coq files derived from /repo's sources (written only when changed)."""
-    build_go(sorted(set(n for n, _ in gens)))
     failed = []
+    unbuilt = set()
+    for n in sorted(set(n for n, _ in gens)):
+        try:
+            build_go([n])
+        except HarnessError as e:
+            # a translator that does not build against the current tree: a broken tie of the properties using it
+            unbuilt.add(n)
+            for name, target in gens:
+                if name == n:
+                    failed.append((name, target, "does not build against the current source: " + str(e)[-1500:]))
     for name, target in gens:
+        if name in unbuilt:
+            continue
         rc, log = run([os.path.join(BUILD, name), "-repo", REPO, "-out", os.path.join(COQ, target)], cwd=HARNESS, env=goenv(), timeout=300)
         if rc != 0:
             # the source no longer has the shape this translator reads: the generated file keeps its previous
